@@ -239,6 +239,39 @@ def check_leaf(ctx, name, fnkey):
             ctx.sample({"validator": name, "atoms": [f"{a[0]}:{a[1]}" for a in atoms], "assignments_checked": n_assign, "paths": len(paths)})
     ctx.add("R11.1", key, not probs, "; ".join(probs)[:1500], site_of(f))
 
+def _slice_try_for_each(w, run):
+    """The slice combinator written as `self.iter().try_for_each(|v| v.validate(claims))`: one straight-line path returning
+    std's try_for_each (first Err stops and is returned, Ok(()) on exhaustion) over the WHOLE slice, whose closure is exactly the
+    element's verdict on the captured claims."""
+    rs = run.results
+    if len(rs) != 1 or rs[0].kind != "return" or rs[0].path.guards:
+        return False
+    raw = rs[0].ret
+    if not (isinstance(raw, tuple) and raw and raw[0] == "call" and len(raw[2]) == 2
+            and re.match(r"<(core::slice::iter::)?Iter<'_, T> as Iterator>::try_for_each::<.*Result<\(\), PasetoError>>$", raw[1])):
+        return False
+    it, clo = raw[2]
+    nit = run.norm.n(it)
+    if nit not in (("call", "core::slice::<impl [T]>::iter", (("in", "self"),)),
+                   ("call", "<&[T] as IntoIterator>::into_iter", (("in", "self"),))):
+        return False
+    if not (isinstance(clo, tuple) and clo[0] == "agg" and clo[1].startswith("closure:") and [run.norm.n(x) for x in clo[2]] == [("in", "claims")]):
+        return False
+    cf = None
+    for c in w.crates.values():
+        cf = cf or c.fns.get(clo[1][len("closure:"):])
+    if cf is None:
+        return False
+    cr = Run(w, cf)
+    if len(cr.results) != 1 or cr.results[0].kind != "return" or cr.results[0].path.guards:
+        return False
+    evs = [e for e in cr.results[0].path.events if e["kind"] == "call"]
+    ret = cr.norm.n(cr.results[0].ret)
+    params = [l.get("name") for l in cf["body"]["locals"][1:1 + cf["body"]["argc"]]]
+    elem = ("in", params[1]) if len(params) == 2 and params[1] else ("in", "arg2")
+    return (len(evs) == 1 and isinstance(ret, tuple) and ret[0] == "call" and ret[1].endswith("Validate>::validate")
+            and ret[2] == (elem, ("fld", ("in", "arg1"), 0)))
+
 def validate_calls(run, r):
     return [e for e in r.path.events if e["kind"] == "call" and e["name"].endswith("Validate>::validate")]
 
@@ -291,7 +324,10 @@ def check_combinators(ctx):
     else:
         run = Run(w, f)
         shapes = {"ok": 0, "loop": 0, "err": 0}
-        for r in run.results:
+        if _slice_try_for_each(w, run):
+            run = None
+            shapes = {"ok": 1, "loop": 1, "err": 1}
+        for r in (run.results if run is not None else ()):
             vc = validate_calls(run, r)
             gs = [(run.norm.n(g["cond"]), g["value"]) for g in r.path.guards]
             nexts = [g for g in gs if "Iterator>::next" in repr(g[0]) and "validate" not in repr(g[0])[:60]]
